@@ -31,6 +31,7 @@ def run(model, rep, tier):
     A(sysrules.find_domain_rule, model, rep, r, "R1")
     A(sysrules.object_state_rule, model, rep, r, "R1")
     A(r2_r3_cache, model, rep, r, an)
+    A(summary_rows, model, rep, r, an)
     A(r4, model, rep, r, an)
 
 
@@ -323,6 +324,12 @@ def r4(model, rep, r, an):
             pairs[h[1]] = v
     want = {"Component": ("const", "System average"), "Power (W)": wavg(by_role["Power"]), "Loss (W)": wavg(by_role["Loss"]),
             "Efficiency (%)": wavg(by_role["Efficiency"]), "24h energy (Wh)": ("energy", ("const", ""), wavg(by_role["Power"]))}
+    icur = [n for n, d in accs.items() if isinstance(d, tuple) and d[:1] == ("sel",) and d[2] == "Iout (A)" and d[3] == "first"]
+    if "Iout (A)" in pairs:
+        if len(icur) == 1:
+            want["Iout (A)"] = wavg(icur[0])
+        else:
+            rep.violation("R4", "system.System.solve", "%s:%d" % (rel, ploop.lineno), "the averaged Iout has no per-phase record of the source's output current", "per-phase record Iout")
     for col, w in want.items():
         ok = pairs.get(col) == w
         if not ok:
@@ -338,3 +345,70 @@ def r2_r3_cache(model, rep, r, an):
     if "_c07_r23" not in rep.__dict__:
         rep.__dict__["_c07_r23"] = r2_r3(model, rep, r, an)
     return rep.__dict__["_c07_r23"]
+
+
+def summary_rows(model, rep, r, an):
+    """the Subsystem and total rows are laid out so that the roll-ups can find them: one append per result column in each of
+    the three row-producing blocks, Component = 'Subsystem <source>' / 'System total', Domain = '', Vin = the source's recorded
+    voltage; and they are only dropped for a single-source system"""
+    rel = model.rel("system")
+    ploop = an["phase_loop"]
+    chans = sorted(set(an["chan"].values()))
+    body = ploop.body
+    ri = body.index(an["row"]) if an["row"] in body else None
+    di = [i for i, s_ in enumerate(body) if isinstance(s_, ast.Assign) and isinstance(s_.value, ast.Call) and ast.unparse(s_.value.func) == "pd.DataFrame"]
+    if ri is None or len(di) != 1:
+        raise AnalysisError("solve: row loop / table construction are not top-level statements of the phase loop")
+    between = body[ri + 1:di[0]]
+    subloop = [s_ for s_ in between if isinstance(s_, ast.For)]
+    if len(subloop) != 1 or not isinstance(subloop[0].target, ast.Name):
+        raise AnalysisError("solve: subsystem summary loop not found")
+    sl = subloop[0]
+    rd = Reader("df", special=special_factory(ast.unparse(sl.iter.args[0].args[0]) if isinstance(sl.iter, ast.Call) and sl.iter.args and isinstance(sl.iter.args[0], ast.Call) and sl.iter.args[0].args else "sources"))
+    rd.env_loop(sl)
+    rd.run(sl.body)
+    tot = Reader("df")
+    tot_stmts = []
+    for s_ in between[between.index(sl) + 1:]:
+        if isinstance(s_, ast.Assign):
+            break        # the table dict starts here
+        tot_stmts.append(s_)
+    tot.run(tot_stmts)
+    ok = True
+    for label, reader, want in (("Subsystem", rd, {"Component": ("fmt", "Subsystem {}", SRC), "Domain": ("const", ""), "Vin (V)": None}),
+                                ("System total", tot, {"Component": ("const", "System total"), "Domain": ("const", "")})):
+        for ch in chans:
+            aps = reader.appends.get(ch, [])
+            base = [a for a in aps if not [c for c in a[0] if c[0] in ("if", "ifnot")]]
+            cond = [a for a in aps if [c for c in a[0] if c[0] in ("if", "ifnot")]]
+            n_eff = len(base) + (1 if cond else 0)
+            if n_eff != 1 or (cond and len(cond) != 2):
+                ok = False
+                rep.violation("R2", "system.System.solve", "%s:%d" % (rel, sl.lineno if label == "Subsystem" else between[-1].lineno),
+                              "the %s row block appends %d value(s) to the column list '%s' (expected exactly one per row): the columns of the table no longer line up" % (label, len(aps), ch), "%s block: %s x%d" % (label, ch, len(aps)))
+        for hdr, w in want.items():
+            var = an["chan"].get(hdr)
+            aps = reader.appends.get(var, [])
+            if not aps:
+                continue
+            got = aps[0][1]
+            if hdr == "Vin (V)":
+                good = got[0] == "sub" and got[2] == SRC
+            else:
+                good = got == w
+            if not good:
+                ok = False
+                rep.violation("R2", "system.System.solve", "%s:%d" % (rel, aps[0][2]), "the %s row gets %s = %s" % (label, hdr, show(got)), "%s row %s = %s" % (label, hdr, show(got)))
+    rep.instance("R2", "system.System.solve layout of the Subsystem / total rows", "%s:%d" % (rel, sl.lineno), ok, "%d column lists" % len(chans))
+    # single-subsystem clean-up only for fewer than two sources
+    ok = True
+    srcname = ast.unparse(sl.iter.args[0].args[0]) if isinstance(sl.iter, ast.Call) and sl.iter.args and isinstance(sl.iter.args[0], ast.Call) and sl.iter.args[0].args else None
+    drops = [x for x in ast.walk(ploop) if isinstance(x, ast.If) and any(isinstance(c, ast.Call) and isinstance(c.func, ast.Attribute) and c.func.attr == "drop" for c in ast.walk(x))]
+    for d_ in drops:
+        t = ast.unparse(d_.test).replace(" ", "")
+        if t not in ("len(%s)<2" % srcname, "len(%s)==1" % srcname, "len(%s)<=1" % srcname):
+            ok = False
+            rep.violation("R2", "system.System.solve", "%s:%d" % (rel, d_.lineno), "Subsystem row / Domain column are dropped when `%s`, expected only for a single-source system" % ast.unparse(d_.test), "drop condition " + t)
+    if not drops:
+        raise AnalysisError("solve: single-subsystem clean-up not found")
+    rep.instance("R2", "system.System.solve drops the Subsystem row only for one source", "%s:%d" % (rel, drops[0].lineno), ok)
